@@ -1388,6 +1388,146 @@ const SPECS: &[Spec] = &[
                `None`, the move of the chosen entry to the running scope - is compared verbatim; `split_storage_key` is the \
                parameter `split` (time stamp and name of a storage key).",
     },
+    Spec {
+        id: "C09",
+        file: "src/server/mq.rs",
+        ty: "TaskQueue",
+        method: "schedule",
+        lean: "TaskQueue.schedule",
+        sig: "&self,task:Task,priority:Priority->KrillResult<()>",
+        binders: "{Tk P R : Type} (schedule_task : Tk → ScheduleMode → P → R) (task : Tk) (priority : P)",
+        args: "schedule_task task priority",
+        ret: "R",
+        num: Num::Nat,
+        names: &[("task", "task"), ("priority", "priority")],
+        methods: &[(("self", "schedule_task"), "schedule_task")],
+        state_ty: &[],
+        elem_ty: "",
+        enums: &[("ScheduleMode", "src/commons/queue.rs", "")],
+        structs: &[],
+        types: &[],
+        opaque_lets: &[],
+        effects: &[],
+        wrapper: None,
+        cond_effects: &[],
+        self_fields: &[],
+        mut_params: &[],
+        extern_enums: &[],
+        tail: None,
+        note: "the private `TaskQueue::schedule_task` is the parameter of the same name (translated below); what is tied here is the `ScheduleMode` this entry point hands to it.",
+    },
+    Spec {
+        id: "C09",
+        file: "src/server/mq.rs",
+        ty: "TaskQueue",
+        method: "schedule_and_finish_existing",
+        lean: "TaskQueue.schedule_and_finish_existing",
+        sig: "&self,task:Task,priority:Priority->KrillResult<()>",
+        binders: "{Tk P R : Type} (schedule_task : Tk → ScheduleMode → P → R) (task : Tk) (priority : P)",
+        args: "schedule_task task priority",
+        ret: "R",
+        num: Num::Nat,
+        names: &[("task", "task"), ("priority", "priority")],
+        methods: &[(("self", "schedule_task"), "schedule_task")],
+        state_ty: &[],
+        elem_ty: "",
+        enums: &[("ScheduleMode", "src/commons/queue.rs", "")],
+        structs: &[],
+        types: &[],
+        opaque_lets: &[],
+        effects: &[],
+        wrapper: None,
+        cond_effects: &[],
+        self_fields: &[],
+        mut_params: &[],
+        extern_enums: &[],
+        tail: None,
+        note: "the private `TaskQueue::schedule_task` is the parameter of the same name (translated below); what is tied here is the `ScheduleMode` this entry point hands to it.",
+    },
+    Spec {
+        id: "C09",
+        file: "src/server/mq.rs",
+        ty: "TaskQueue",
+        method: "schedule_missing",
+        lean: "TaskQueue.schedule_missing",
+        sig: "&self,task:Task,priority:Priority->KrillResult<()>",
+        binders: "{Tk P R : Type} (schedule_task : Tk → ScheduleMode → P → R) (task : Tk) (priority : P)",
+        args: "schedule_task task priority",
+        ret: "R",
+        num: Num::Nat,
+        names: &[("task", "task"), ("priority", "priority")],
+        methods: &[(("self", "schedule_task"), "schedule_task")],
+        state_ty: &[],
+        elem_ty: "",
+        enums: &[("ScheduleMode", "src/commons/queue.rs", "")],
+        structs: &[],
+        types: &[],
+        opaque_lets: &[],
+        effects: &[],
+        wrapper: None,
+        cond_effects: &[],
+        self_fields: &[],
+        mut_params: &[],
+        extern_enums: &[],
+        tail: None,
+        note: "the private `TaskQueue::schedule_task` is the parameter of the same name (translated below); what is tied here is the `ScheduleMode` this entry point hands to it.",
+    },
+    Spec {
+        id: "C09",
+        file: "src/server/mq.rs",
+        ty: "TaskQueue",
+        method: "schedule_task",
+        lean: "TaskQueue.schedule_task",
+        sig: "&self,task:Task,mode:ScheduleMode,priority:Priority->KrillResult<()>",
+        binders: "{Tk P Nm J ε R : Type} (name_of : Tk → Nm) (to_json : Tk → Except ε J) (to_millis : P → Nat) (q_schedule_task : Nm → J → Option Nat → ScheduleMode → Except ε R) (wrap_err : ε → ε) (task : Tk) (mode : ScheduleMode) (priority : P)",
+        args: "name_of to_json to_millis q_schedule_task wrap_err task mode priority",
+        ret: "Except ε R",
+        num: Num::Nat,
+        names: &[("task.name()", "(name_of task)"), ("mode", "mode"), ("serde_json::to_value(&task)", "(to_json task)"), ("priority.to_millis()", "(to_millis priority)"), ("self.q.schedule_task(&task_name,&json,Some(priority.to_millis()),mode).map_err(Error::from)", "(q_schedule_task task_name json (some (to_millis priority)) mode)")],
+        methods: &[],
+        state_ty: &[],
+        elem_ty: "",
+        enums: &[("ScheduleMode", "src/commons/queue.rs", "")],
+        structs: &[],
+        types: &[],
+        opaque_lets: &[],
+        effects: &[],
+        wrapper: None,
+        cond_effects: &[],
+        self_fields: &[],
+        mut_params: &[],
+        extern_enums: &[],
+        tail: None,
+        note: "`Queue::schedule_task` (translated above from queue.rs) is the parameter `q_schedule_task`; serialisation of the task is `to_json` (its failure is returned); `Priority::to_millis` is `to_millis`; the conversion of the queue error (`map_err(Error::from)`) is not modelled.",
+    },
+    Spec {
+        id: "C09",
+        file: "src/server/mq.rs",
+        ty: "TaskQueue",
+        method: "reschedule",
+        lean: "TaskQueue.reschedule",
+        sig: "&self,task:&Ident,priority:Priority->KrillResult<()>",
+        binders: "{K P R : Type} (to_millis : P → Nat) (q_reschedule_running_task : K → Option Nat → R) (task : K) (priority : P)",
+        args: "to_millis q_reschedule_running_task task priority",
+        ret: "R",
+        num: Num::Nat,
+        names: &[("self.q.reschedule_running_task(task,Some(priority.to_millis())).map_err(Error::from)", "(q_reschedule_running_task task (some (to_millis priority)))")],
+        methods: &[],
+        state_ty: &[],
+        elem_ty: "",
+        enums: &[],
+        structs: &[],
+        types: &[],
+        opaque_lets: &[],
+        effects: &[],
+        wrapper: None,
+        cond_effects: &[],
+        self_fields: &[],
+        mut_params: &[],
+        extern_enums: &[],
+        tail: None,
+        note: "`Queue::reschedule_running_task` is the parameter; tied: the task keeps its own key and gets the time of the priority.",
+    },
 ];
 
 type R = Result<String, String>;
